@@ -139,7 +139,7 @@ pub fn run(args: &Args) {
         }
     }
 
-    let n = args.tier.pick(4000, 200_000);
+    let n = args.tier.pick(24_000, 400_000);
     let res = vcore::run_prop_parallel(&report, "programs", n, vcore::num_workers(), cases::case_strategy, |spec| {
         // bias to the "everything" tier
         let spec2 = CaseSpec { tape: spec.tape.clone(), variant: if spec.variant % 5 < 3 { 3 } else { spec.variant % 5 }, mtape: spec.mtape.clone() };
